@@ -62,6 +62,10 @@ BENIGN2 = BENIGN.replace("-bn-", "-b2-").replace(
 BREAK4 = BREAK.replace("-r2-", "-r4-").replace(
  " 3. The three changes must sit in three DIFFERENT functions",
  " 3. This is a fourth round; the tool already catches edits inside the anchored functions well. Choose the three changes from three DIFFERENT families: (a) a change OUTSIDE the files listed for the property - in a shared helper, base class, table, constant, default argument value, import, or module-level initialisation that the anchored code relies on - which breaks the property while the anchored functions stay textually unchanged; (b) a change of a SIBLING: one of several parallel implementations (one curve, one type class, one mode, one operation kind, one instruction of a family) made to disagree with the others in a way that only shows for that sibling; (c) a refactoring that LOOKS behaviour-preserving (a helper extracted, a loop turned into a comprehension, a condition simplified by a wrong algebraic identity, De Morgan applied wrongly, `<=` vs `<` after reordering operands, a default changed from None to a falsy value) but changes the result for some input. The three changes must sit in three DIFFERENT functions")
+
+BREAK5 = BREAK.replace("-r2-", "-r5-").replace("Produce THREE independent changes", "Produce TWO independent changes").replace("for change k in (1, 2, 3)", "for change k in (1, 2)").replace("summary of the three changes", "summary of the two changes").replace(
+ " 3. The three changes must sit in three DIFFERENT functions",
+ " 3. This is a fifth round and you have about 20 minutes in total, so be decisive: read the anchored code for a few minutes, pick two ideas, implement, run the test suite ONCE per change. The tool already catches plain edits inside the anchored functions and in their direct helpers. Choose the two changes from DIFFERENT families among: (a) an interaction between two edits in two different files that each preserve behaviour alone (e.g. a helper's contract is relaxed and a caller stops normalising); (b) a subtle change in a data table, constant, regular expression, default argument, class attribute or inheritance order that the anchored code consults; (c) a change that only matters on the second use of an object (cached state, mutated argument, shared default, generator consumed twice); (d) a value-dependent slip for a rare value class only (negative, zero, empty, maximal length, non-ASCII, an uncommon prefix/curve/kind). The two changes must sit in two DIFFERENT functions")
 kind, pid = sys.argv[1], sys.argv[2]
-wt = {'break': f'/tmp/r2_{pid}', 'benign': f'/tmp/bn_{pid}', 'break3': f'/tmp/r3_{pid}', 'break4': f'/tmp/r4_{pid}', 'benign2': f'/tmp/b2_{pid}'}[kind]
-print({'break': BREAK, 'benign': BENIGN, 'break3': BREAK3, 'break4': BREAK4, 'benign2': BENIGN2}[kind].format(wt=wt, pid=pid, prop=prop_text(props[pid])))
+wt = {'break5': f'/tmp/r5_{pid}', 'break': f'/tmp/r2_{pid}', 'benign': f'/tmp/bn_{pid}', 'break3': f'/tmp/r3_{pid}', 'break4': f'/tmp/r4_{pid}', 'benign2': f'/tmp/b2_{pid}'}[kind]
+print({'break5': BREAK5, 'break': BREAK, 'benign': BENIGN, 'break3': BREAK3, 'break4': BREAK4, 'benign2': BENIGN2}[kind].format(wt=wt, pid=pid, prop=prop_text(props[pid])))
